@@ -1,0 +1,5 @@
+//go:build !verif
+
+package scanner
+
+func verifStep(*Scanner, byte) {}
